@@ -40,7 +40,7 @@ var docPool = []string{
 
 var deepDoc = strings.Repeat("[", 20) + `{"a":` + strings.Repeat(`{"b":[`, 6) + "1" + strings.Repeat("]}", 6) + "}" + strings.Repeat("]", 20)
 
-var scalarDocs = []string{deepDoc, `null`, `false`, `true`, `0`, `1.50`, `"str"`, `"a\u0000b"`, `[]`, `{}`, `[1,[2]]`, `100000000000000000000`, `-0`, `"multi\nline"`, `[null,false]`}
+var scalarDocs = []string{deepDoc, `1.0`, `1e3`, `1E+2`, `-0`, `-0.0`, `0.1e-7`, `1.5e300`, `1e1000`, `-1e1000`, `123456789012345678901234567890`, `1.000000000000000000001`, `[1.10, 2e0, 3E-2]`, `{"n":0.30000000000000004}`, `5e-324`, `{"a":1,"a":2}`, " \t[ 1 ,\r\n 2 ]\t", `null`, `false`, `true`, `0`, `1.50`, `"str"`, `"a\u0000b"`, `[]`, `{}`, `[1,[2]]`, `100000000000000000000`, `-0`, `"multi\nline"`, `[null,false]`}
 
 // bigDoc is a document larger than the decoder's and the encoder's internal buffers.
 func bigDoc(r *kernel.Rand, id int) string {
@@ -131,6 +131,12 @@ var c15Items = []string{
 	`.[]?`, `(.v?|.[]?)`, `tojson`, `(.id?|tostring)`, `(select(.id? == %d) | error("on id"))`, `(select(.id? == %d) | halt_error(7))`, `(select(.id? == %d) | halt)`,
 	`(select(.id? == %d) | "hit")`, `(.v? // "alt")`, `(try error("c") catch .)`, `(.id? | select(. != null) | . * 2)`, `100000000000000000000`, `1.0`, `(.v? | select(type == "string"))`,
 	`input`, `(try input catch "none")`, `[limit(1; inputs)]`, `(1/0)?`, `(. as $x | $x)`, `$__loc__.line`, `input_line_number`,
+	// halt is not an ordinary error: nothing catches it, and it stops everything at once
+	`(try halt_error catch "caught")`, `(try halt catch "caught")`, `(halt_error | 1)`, `first(halt_error)`, `[halt]`, `reduce (1, halt) as $x (0; 1)`, `(label $l | halt_error)`, `(halt_error(1) // 2)`, `(halt?)`,
+	`(.[]? | halt)`, `({a:1} | halt_error)`, `([1,"x"] | halt_error(2))`, `(null | halt_error)`, `("no newline" | halt_error(5))`, `(1.50 | halt_error)`, `(select(.id? == %d) | {id} | halt_error(256))`, `(select(.id? == %d) | "m\n" | halt_error(-1))`,
+	// numbers of every rendering class
+	`(1/3)`, `1e1000`, `-1e1000`, `nan`, `[nan]`, `infinite`, `(.1 + .2)`, `1e17`, `1e-7`, `3.0`, `[1e6, 1e21, 1e-6, 1e-7, 1.5e300, 5e-324]`, `123456789012345678901234567890`, `(100000000000000000000 + 1)`, `-0`, `(0 * -1)`, `1.000`, `1E+2`, `0.10`,
+	`(.v? | numbers)`, `[.. | numbers]`, `(.f? // empty)`, `(9007199254740993 | ., . + 1)`, `[limit(3; range(1; 10; 0.1))]`, `(1e3 | ., floor, tostring)`,
 	// outputs larger than the encoder's flush threshold
 	`reduce range(40) as $i (.; [.])`, `reduce range(12) as $i (1; {a: [.]})`, `[range(2500)]`, `("x" * 9000)`, `[range(400) | {a: ., b: "str é"}]`, `(.big? | length)`, `[.big?[]? | tostring] | join(",")`, `{a: [range(1200)], b: .id?}`,
 }
